@@ -157,9 +157,9 @@ macro_rules! const_cmp_for {
     ) => {
         match ($left_slice, $right_slice) {(mut left_slice, mut right_slice) => {
             use $crate::__::Ordering as CmpOrdering;
-            if left_slice.len() == right_slice.len() {
-                loop{
-                    if let ([l, l_rem@..], [r, r_rem@..]) = (left_slice, right_slice) {
+            loop{
+                match (left_slice, right_slice) {
+                    ([l, l_rem@..], [r, r_rem@..]) => {
                         left_slice = l_rem;
                         right_slice = r_rem;
 
@@ -171,14 +171,11 @@ macro_rules! const_cmp_for {
                         if !$crate::__::matches!(ord, $crate::__::Ordering::Equal) {
                             break ord;
                         }
-                    } else {
-                        break $crate::__::Ordering::Equal
                     }
+                    ([], []) => break CmpOrdering::Equal,
+                    ([], _) => break CmpOrdering::Less,
+                    (_, []) => break CmpOrdering::Greater,
                 }
-            } else if left_slice.len() < right_slice.len() {
-                CmpOrdering::Less
-            } else {
-                CmpOrdering::Greater
             }
         }}
     };
